@@ -279,6 +279,16 @@ class Model:
             (expr.lineno, expr.col_offset, expr.end_lineno, expr.end_col_offset), '?'  # type: ignore[attr-defined]
         )
 
+    def type_classes(self, mod: ModuleInfo, expr: ast.AST) -> list[str]:
+        """Repository/builtin class fullnames mentioned in the inferred type of expr."""
+        import re
+
+        return re.findall(r'[A-Za-z_][\w]*(?:\.[A-Za-z_]\w*)+', self.type_of(mod, expr))
+
+    def is_instance_of(self, mod: ModuleInfo, expr: ast.AST, base_qn: str) -> bool:
+        cs = [c for c in self.type_classes(mod, expr) if c != 'builtins.None']
+        return bool(cs) and all(self.is_subclass(c, base_qn) for c in cs if c in self.classes) and any(c in self.classes for c in cs)
+
     def calls_to(self, mod: ModuleInfo, root: ast.AST, *suffixes: str) -> list[ast.Call]:
         """Calls under `root` whose resolved callee ends with one of `suffixes` (source order)."""
         out = []
